@@ -144,6 +144,10 @@ type Ann struct {
 	Prefix     string   `json:"prefix"`
 	OneofValue string   `json:"oneofValue"`
 	Examples   []string `json:"examples"`
+	// Explicit: every annotation that applies to the field and is not set is WRITTEN OUT with its
+	// default value (nullable = false, unwrap = false, flatten = false, *_UNSPECIFIED): the same
+	// definition as leaving it out
+	Explicit bool `json:"explicit"`
 }
 
 // Rules is the supported subset of buf.validate field rules. Numeric bounds are decimal strings.
